@@ -4,7 +4,7 @@
 # report whether it is caught at this VERIF_SEED. Leaves nothing behind.
 SEED="${1:-1}"; shift
 ROOT="$(cd "$(dirname "$0")/.." && pwd)"
-WT=/tmp/mut/seedsweep
+WT="${SEEDSWEEP_WT:-/tmp/mut/seedsweep}"
 rm -rf "$WT"; git -C /repo worktree prune; git -C /repo worktree add -q --detach "$WT" HEAD || exit 2
 names=("$@"); [ ${#names[@]} -eq 0 ] && names=($(ls "$ROOT/seeded"))
 missed=0
